@@ -21,8 +21,8 @@ def parse_jobs(fn, entry, callees=(), loops=1, est=20, **kw):
     base.update(kw)
     return [
         dict(name='c08_' + fn, prop='C08', harness='harness/C08/ptypes.py'.replace('.py', '.c'),
-             defines=['CQV_ALLOC_NEVER_FAILS=1'], wip=True, **base),
-        dict(name='c19_' + fn, prop='C19', harness='harness/C19/ptypes.c', wip=True, **base),
+             defines=['CQV_ALLOC_NEVER_FAILS=1', 'CQV_FN_%s=1' % fn], wip=True, **base),
+        dict(name='c19_' + fn, prop='C19', harness='harness/C19/ptypes.c', defines=['CQV_FN_%s=1' % fn], wip=True, **base),
     ]
 
 
